@@ -289,6 +289,10 @@ class XmlContext:
         try:
             meta = self.build(clazz)
             local_names = {var.local_name for var in meta.get_all_vars()}
+            # A wrapped field is written under its wrapper name
+            local_names.update(
+                var.wrapper for var in meta.get_all_vars() if var.wrapper
+            )
             return not names.difference(local_names)
         except (XmlContextError, NameError, TypeError):
             # The dataclass includes unsupported typing annotations
